@@ -77,12 +77,19 @@ def run_tlc(spec, cfg=None, cfg_text=None, workdir=None, workers=16, mode="check
     res = TLCResult()
     res.cmd = " ".join(cmd)
     t0 = time.time()
-    try:
-        p = subprocess.run(cmd, cwd=workdir, env=e, stdout=subprocess.PIPE, stderr=subprocess.STDOUT,
-                           timeout=timeout, text=True)
-    except subprocess.TimeoutExpired:
-        subprocess.run(["pkill", "-f", workdir], check=False)
-        raise MachineryError("TLC timeout after %ss: %s" % (timeout, res.cmd))
+    for attempt in range(3):
+        try:
+            p = subprocess.run(cmd, cwd=workdir, env=e, stdout=subprocess.PIPE, stderr=subprocess.STDOUT,
+                               timeout=timeout, text=True)
+        except subprocess.TimeoutExpired:
+            subprocess.run(["pkill", "-f", workdir], check=False)
+            raise MachineryError("TLC timeout after %ss: %s" % (timeout, res.cmd))
+        # killed from outside (another process cleaning up "all TLC" with pkill): run again
+        if p.returncode in (143, 137, 130, -15, -9) and "Finished in" not in p.stdout:
+            shutil.rmtree(os.path.join(workdir, "states"), ignore_errors=True)
+            time.sleep(1 + attempt)
+            continue
+        break
     res.wall_s = time.time() - t0
     out = p.stdout
     res.stdout = out
